@@ -68,7 +68,20 @@ fn circle_pairs(rng: &mut Rng) {
     let mut v = Verdict::new();
     match iv {
         Err(e) => v.require(false, "cc.interval_panics", || e.clone()),
-        Ok(r) => v.require(r.is_some() == !pts.is_empty(), "cc.interval_iff_points", || "".into()),
+        Ok(r) => {
+            v.require(r.is_some() == !pts.is_empty(), "cc.interval_iff_points", || "".into());
+            // with two crossings the interval is the arc of the first circle cut off by the second: it ends at the
+            // two crossing points and holds the direction of the second centre; a point of it is inside the second circle
+            if let (Some(iv), true, false) = (r, pts.len() == 2, near_tangent) {
+                let slack = 1e-7;
+                let ang = |p: &Point2| c0.angle_of_point(p);
+                let holds = |a: f64| iv.contains(a) || iv.contains(a + slack) || iv.contains(a - slack);
+                v.require(holds(ang(&pts[0])) && holds(ang(&pts[1])), "cc.interval_ends_at_the_crossings", || format!("{iv:?} vs {:?} {:?}", ang(&pts[0]), ang(&pts[1])));
+                v.require(iv.contains(ang(&c1.center)), "cc.interval_holds_direction_of_other_centre", || format!("{iv:?} vs {}", ang(&c1.center)));
+                let mid = c0.point_at_angle(iv.at_fraction(0.5));
+                v.require((mid - c1.center).norm() < c1.r() + 1e-9 * (1.0 + c1.r()), "cc.interval_midpoint_inside_other_circle", || format!("{iv:?}: {} vs r {}", (mid - c1.center).norm(), c1.r()));
+            }
+        }
     }
     emit_oracle_only("circle.cc_interval", &Tok::new(), &Tok::new(), &v);
 }
